@@ -33,6 +33,8 @@ fn sig_name(s: i32) -> &'static str
 pub fn check(case: &C18Case) -> CaseOutcome
 {
     let mut o = CaseOutcome::default();
+    // every line the subject prints is an operation boundary too ("at any moment")
+    crate::sandbox::COUNT_STDIO.store(true, std::sync::atomic::Ordering::Relaxed);
     let (tree, files, missing, _) = case.tree.render();
     let names: Vec<String> = files.iter().map(|f| f.0.clone()).collect();
     let r = fault_run(&tree, case.check_mode, None, None);
@@ -353,7 +355,7 @@ pub fn run(env: &Env, rec: &Recorder) -> (String, Vec<&'static str>)
     pbt_opts(env, rec, "signals", env.cases(40, 1000), 30, &strategy, &check);
     rec.set_exhaustive(true);
     (
-        "trees of 2-8 source files (some needing insertions, some not), both modes, both styles, cache on/off, lock absent/consistent; a recording run gives the K counted operations; then for each of SIGTERM and SIGINT and EVERY boundary k in 1..=K+1 the signal is delivered immediately before operation k (LD_PRELOAD shim, thread-directed so that the handler has run before the operation starts), plus, for every boundary from the start of discovery on, a pair of signals (the second one 1-3 operations later), plus (edit mode) every lock-file write failed once (ENOSPC) followed by a signal at the later boundaries, each on a fresh copy. Oracle from the start of source discovery on: the process exits by itself; after the signal it starts work on at most one more source file; exit 0 only if nothing was left to do (edit: a following --check passes; check: no reference missing and the last file had been reached); every source file untouched or a complete update; with the cache on and >= 1 file updated a parsable lock with next > every ID inserted. Before discovery: the process may be killed but then nothing is modified. exhaustive=true: all boundaries of each generated tree. Non-trivial = distinct (tree, mode, signal, boundary) strictly between the first and last source-file operation on a tree with >= 2 files needing work".to_string(),
+        "trees of 2-8 source files (some needing insertions, some not), both modes, both styles, cache on/off, lock absent/consistent; a recording run gives the K counted operations (file system calls on project and TMPDIR paths AND every line written to standard output / standard error); then for each of SIGTERM and SIGINT and EVERY boundary k in 1..=K+1 the signal is delivered immediately before operation k (LD_PRELOAD shim, thread-directed so that the handler has run before the operation starts), plus, for every boundary from the start of discovery on, a pair of signals (the second one 1-3 operations later), plus (edit mode) every lock-file write failed once (ENOSPC) followed by a signal at the later boundaries, each on a fresh copy. Oracle from the start of source discovery on: the process exits by itself; after the signal it starts work on at most one more source file; exit 0 only if nothing was left to do (edit: a following --check passes; check: no reference missing and the last file had been reached); every source file untouched or a complete update; with the cache on and >= 1 file updated a parsable lock with next > every ID inserted. Before discovery: the process may be killed but then nothing is modified. exhaustive=true: all boundaries of each generated tree. Non-trivial = distinct (tree, mode, signal, boundary) strictly between the first and last source-file operation on a tree with >= 2 files needing work".to_string(),
         vec!["signals are delivered synchronously at libc call boundaries (kill(getpid()) from the interposer); asynchronous delivery inside a system call is not enumerated", "the harness resets SIGINT/SIGTERM to SIG_DFL in the child so that an inherited SIG_IGN cannot mask a missing handler"],
     )
 }
